@@ -83,8 +83,36 @@ def tables : Handler := fun _ => do
     ("abbrevPairs", Json.arr pairs.toArray),
     ("aliases", Json.arr al.toArray), ("keys", Json.arr keys.toArray)])
 
+/-- `c16.spaced`: the specification's rendering of a body text `x` (a formula, an abbreviated formula or a
+name, already rendered by the ops above) under a SPACED decoration (round 11, B3): outer white space, an
+optional `!` + white space, prefix words each followed by its white space, suffix words each preceded by
+its white space. Returns the text, whether the decoration is admissible (`ok`), whether what surrounds
+the body is a decoration text in the sense of `C16_formula_spaced` / `C16_abbrev_spaced` (`decoOk`), the
+flag of the property's clause on the text (`carries` = `Spec.NP.carriesNeg`) and the flag the decoration
+carries by construction (`neg` = `Spaced.neg`). -/
+def spacedH : Handler := fun j => do
+  let x ← getStr j "x"
+  let outerL ← getStr j "outerL"
+  let outerR ← getStr j "outerR"
+  let bang ← match j.getObjVal? "bang" with
+    | .ok (.str w) => pure (some (codesOf w))
+    | _ => pure none
+  let word (e : Json) : Except String SpWord := do
+    let a ← e.getArr?
+    if a.size != 2 then throw "bad word"
+    let w ← a[0]!.getStr?
+    let s ← a[1]!.getStr?
+    pure { word := codesOf w, ws := codesOf s }
+  let pre ← (← getArr j "pre").toList.mapM word
+  let post ← (← getArr j "post").toList.mapM word
+  let d : Spaced := { outerL := codesOf outerL, bang, pre, post, outerR := codesOf outerR }
+  let t := renderSpaced d (codesOf x)
+  pure (Json.mkObj [("s", Json.str (strOf t)), ("ok", Json.bool d.ok),
+    ("decoOk", Json.bool (d.before.all decoChar && d.after.all decoChar)),
+    ("carries", Json.bool (carriesNeg t)), ("neg", Json.bool d.neg)])
+
 def handlers : List (String × Handler) :=
   [("c16.model", model), ("c16.render", render), ("c16.renderAbbrev", renderAbbrevH), ("c16.renderName", renderNameH),
-   ("c16.tables", tables)]
+   ("c16.tables", tables), ("c16.spaced", spacedH)]
 
 end Driver.C16
